@@ -142,6 +142,21 @@ def pcr_cases(thorough, seed):
                 lines = [" ORG $2000\n", "P1 %s %s\n" % (m1, o1), "P2 %s %s\n" % (m2, o2.replace("T1", "T3"))] + filler(n, "rmb") + ["T3 NOP\n", "T2 NOP\n", " RTS\n"]
                 yield {"id": "pcrnest/%s/%s/%d/%d%d" % (m1, m2, n, ind1, ind2), "lines": lines, "form": "pcr.nested", "traits": {"ind": ind1 or ind2, "zone": "n/a"},
                        "src": [("P1", "T2", 0), ("P2", "T3", 0)], "valid": True, "mn": m1}
+    # label +- EQU constant of either sign: the width decision must use the signed constant
+    for mn in ("LEAX", "LDA"):
+        for cv in (-100, -2, 3, 100, -200):
+            for opn in ("+", "-"):
+                for gap in (0, 20, 47, 60, 100, 126):
+                    for fwd in (True, False):
+                        e = "T%sCV" % opn
+                        n = cv if opn == "+" else -cv
+                        if fwd:
+                            body = ["S %s %s,PCR\n" % (mn, e)] + filler(gap, "rmb") + ["T NOP\n"]
+                        else:
+                            body = ["T NOP\n"] + filler(gap, "rmb") + ["S %s %s,PCR\n" % (mn, e)]
+                        yield {"id": "pcrequ/%s/%d/%s/%d/%s" % (mn, cv, opn, gap, fwd), "lines": ["CV EQU %d\n" % cv, " ORG $2000\n", " RMB 300\n"] + body + [" RMB 300\n", " RTS\n"],
+                               "form": "pcr.equ-expr.%s" % ("fwd" if fwd else "bwd"), "traits": {"ind": False, "zone": "n/a", "negative_constant": cv < 0},
+                               "src": [("S", "T", n)], "valid": True, "mn": mn}
     # label +- n
     for mn in ("LDA", "LEAX"):
         for n in (1, 2, 5, -1, -3):
